@@ -24,7 +24,17 @@ type c07hInst struct {
 
 func (in *c07hInst) LastOutcome() string { return in.out }
 
-var c07hEvents = []string{"success", "failure", "panic", "clock+0.9s(<interval)", "clock+2.1s(>interval,<timeout)", "clock+3.1s(>timeout)"}
+// events 6-8: requests that take time (the clock moves while the protected function runs): an
+// outcome belongs to the instant the request ends, e.g. the open period starts when the
+// failing request has failed, not when it was admitted
+var c07hEvents = []string{"success", "failure", "panic", "clock+0.9s(<interval)", "clock+2.1s(>interval,<timeout)", "clock+3.1s(>timeout)",
+	"slow-failure(3.1s)", "slow-success(3.1s)", "slow-failure(0.9s)"}
+
+// what each request event does: outcome (0 success, 1 failure, 2 panic) and how long it takes
+var c07hReq = map[int]struct {
+	outcome int
+	takes   time.Duration
+}{0: {0, 0}, 1: {1, 0}, 2: {2, 0}, 6: {1, 3100 * time.Millisecond}, 7: {0, 3100 * time.Millisecond}, 8: {1, 900 * time.Millisecond}}
 
 func stateName(st State) string {
 	switch st {
@@ -66,7 +76,10 @@ func (in *c07hInst) Step(ev int) *vh.HViol {
 		}()
 		err = in.cb.Execute(func() error {
 			called = true
-			switch ev {
+			if d := c07hReq[ev].takes; d > 0 {
+				in.s.AdvanceQuiet(d)
+			}
+			switch c07hReq[ev].outcome {
 			case 1:
 				return errTrial
 			case 2:
@@ -97,13 +110,14 @@ func (in *c07hInst) Step(ev int) *vh.HViol {
 		return &vh.HViol{Key: "C07/seq/" + kind + "/in-" + in.ref.State, What: fmt.Sprintf("%s: request at t=%v: reference says %q, breaker says %q (reference state %s)", cfg, now, want, got, in.ref.State)}
 	}
 	if called {
-		if ev == 2 && !panicked {
+		oc := c07hReq[ev].outcome
+		if oc == 2 && !panicked {
 			return &vh.HViol{Key: "C07/seq/panic-swallowed", What: cfg + ": a panicking request did not propagate its panic"}
 		}
-		if ev == 0 && err != nil || ev == 1 && err != errTrial {
+		if oc == 0 && err != nil || oc == 1 && err != errTrial {
 			return &vh.HViol{Key: "C07/seq/result-altered", What: fmt.Sprintf("%s: Execute returned %v for event %s", cfg, err, c07hEvents[ev])}
 		}
-		in.ref.Done(now, ev == 0)
+		in.ref.Done(in.s.Clock(), oc == 0)
 	}
 	if st := stateName(in.cb.State()); st != in.ref.State {
 		return &vh.HViol{Key: fmt.Sprintf("C07/seq/state-%s-where-reference-%s", st, in.ref.State),
